@@ -15,11 +15,12 @@ From Ctg Require Import Net Einsum.
 Import ListNotations.
 Open Scope nat_scope.
 
-(* --- canonicalisation is an injective relabelling, applied consistently ------------------ *)
+(* --- canonicalisation is an injective relabelling, applied consistently, and preserves the VALUE --- *)
 (* canonicalize_inputs returns map f over the inputs and the output for ONE function f (the
    final ind_map), f is injective on every label it has seen, the k-th label seen receives
    get_symbol k, and when no output is given the computed output is f of the first-seen-once
-   labels of the ORIGINAL inputs (so computing the output commutes with the relabelling). *)
+   labels of the ORIGINAL inputs (so computing the output commutes with the relabelling).
+   The three theorems after it lift this to the mathematical einsum (einsum_spec of Einsum.v). *)
 Theorem C12_relabel_invariant : forall inputs output shapes sd ni no nsd m,
   canonicalize_inputs inputs output shapes sd = (ni, no, nsd, m) ->
   im_wf m /\
@@ -253,44 +254,39 @@ Theorem C12_interleaved_symbols_injective : forall inputs, exists c,
 Proof. exact get_symbol_map_injective. Qed.
 Print Assumptions C12_interleaved_symbols_injective.
 
-(* --- model = NumpySpec: bounded exhaustive form, kept as independent evidence (vm_compute) ----
-   FULL STATEMENTS (now proved in general above for the string form; see below for interleaved):
-     ellipsis_expansion_matches_numpy / implicit_output_matches_numpy / interleaved_matches_numpy:
-       forall well-formed call a (letters only, no blanks, not output-only-ellipsis),
-         agrees_args_v fx a <> Some false
-   PROVED HERE: the same statement for ALL 18816 calls of a finite family (vm_compute): 1 or 2
+(* --- model = NumpySpec: bounded exhaustive sweeps, kept as INDEPENDENT evidence (vm_compute) ---
+   The general theorems above are proved by induction over token lists; the four sweeps below
+   evaluate the same comparison (agrees_args_v) on all 18816 calls of a finite family: 1 or 2
    operands, each `pre [...] post` with pre in {"", "b", "B", "bB"}, post in {"", "b", "a"}, the
-   ellipsis (if any) covering 0, 1 or 2 dimensions -- so ellipses at the start / middle / end,
-   different broadcast ranks (right alignment), repeated labels, upper/lower case ordering -- and
-   8 outputs (implicit, "", "b", "...", "...b", "B...", "a...b", "bB").  What is missing is the
-   induction over arbitrary strings; every generated call of a run is in addition judged by the
-   same function agrees_args_v inside Coq (correspondence K3 of the check). *)
-Theorem C12_ellipsis_expansion_matches_numpy_partial :
+   ellipsis (if any) covering 0, 1 or 2 dimensions, 8 outputs (implicit, "", "b", "...", "...b",
+   "B...", "a...b", "bB"), string and interleaved form, for the model of the originally pinned code
+   (no_fixes; the output-only-ellipsis class excluded) and of the code with the fixes (all_fixes). *)
+Theorem C12_sweep_string_pinned :
   forallb (fun c => output_only_ellipsis (fst c) (snd c) ||
                     not_refuted (agrees_args_v no_fixes (sweep_args_str (fst c) (snd c)))) sweep_calls = true.
 Proof. exact sweep_string_pinned. Qed.
-Print Assumptions C12_ellipsis_expansion_matches_numpy_partial.
+Print Assumptions C12_sweep_string_pinned.
 
-(* implicit outputs are part of the family (output = None): same sweep with all fixes, no exclusion *)
-Theorem C12_implicit_output_matches_numpy_partial :
+(* the code with the fixes: no exclusion *)
+Theorem C12_sweep_string_fixed :
   forallb (fun c => not_refuted (agrees_args_v all_fixes (sweep_args_str (fst c) (snd c)))) sweep_calls = true.
 Proof. exact sweep_string_fixed. Qed.
-Print Assumptions C12_implicit_output_matches_numpy_partial.
+Print Assumptions C12_sweep_string_fixed.
 
 (* interleaved form: true of the pinned code when the output sublist is given ... *)
-Theorem C12_interleaved_explicit_matches_numpy_partial :
+Theorem C12_sweep_interleaved_explicit_pinned :
   forallb (fun c => match snd c with None => true | Some _ =>
                       output_only_ellipsis (fst c) (snd c) ||
                       not_refuted (agrees_args_v no_fixes (sweep_args_inter (fst c) (snd c))) end) sweep_calls = true.
 Proof. exact sweep_inter_explicit_pinned. Qed.
-Print Assumptions C12_interleaved_explicit_matches_numpy_partial.
+Print Assumptions C12_sweep_interleaved_explicit_pinned.
 
 (* ... and of the code with the proposed fix also without it (implicit output sorted by label) *)
-Theorem C12_interleaved_matches_numpy_fixed_partial :
+Theorem C12_sweep_interleaved_fixed :
   forallb (fun c => output_only_ellipsis (fst c) (snd c) ||
                     not_refuted (agrees_args_v all_fixes (sweep_args_inter (fst c) (snd c)))) sweep_calls = true.
 Proof. exact sweep_inter_fixed. Qed.
-Print Assumptions C12_interleaved_matches_numpy_fixed_partial.
+Print Assumptions C12_sweep_interleaved_fixed.
 
 (* the sweeps are not vacuous: every call of the family that numpy accepts is agreed on *)
 Example C12_sweep_nonvacuous :
